@@ -594,33 +594,99 @@ func (m *mergeCtx) ps5MergeOrder() {
 		return nil, false
 	}
 	hintClosed, activeClosed, olderClosed := false, false, false
+	// the closes may live in a helper that only Merge calls and that is handed the files (`closeMergeOutputs(hint, db)`):
+	// its parameters are bound at the call site, and "before the marker" is asked of the call site
+	closeBlocks := append([]*ssa.BasicBlock{}, m.merge.Blocks...)
+	helperSite := map[*ssa.Function]ssa.CallInstruction{}
 	for _, b := range m.merge.Blocks {
+		for _, in := range b.Instrs {
+			if ci, ok := in.(ssa.CallInstruction); ok {
+				h := ci.Common().StaticCallee()
+				if h != nil && inRootPkg(h) && h.Blocks != nil && h.Parent() == nil && !token.IsExported(h.Name()) && h != m.merge {
+					if sites := m.staticCallers(h); len(sites) == 1 {
+						if _, dup := helperSite[h]; !dup {
+							helperSite[h] = ci
+							closeBlocks = append(closeBlocks, h.Blocks...)
+						}
+					}
+				}
+			}
+		}
+	}
+	// bind: origins of v with parameters of a helper replaced by the origins of the call-site arguments
+	bind := func(v ssa.Value) []ssa.Value {
+		var out []ssa.Value
+		for _, o := range core.Origins(v) {
+			if pr, ok := o.(*ssa.Parameter); ok {
+				if site, isH := helperSite[pr.Parent()]; isH {
+					for i, pp := range pr.Parent().Params {
+						if pp == pr && i < len(site.Common().Args) {
+							out = append(out, core.Origins(site.Common().Args[i])...)
+						}
+					}
+					continue
+				}
+			}
+			out = append(out, o)
+		}
+		return out
+	}
+	isScratch := func(base ssa.Value) bool {
+		for _, o := range bind(base) {
+			if isScratchDB(m.merge, o) {
+				return true
+			}
+		}
+		return isScratchDB(m.merge, base)
+	}
+	// beforeMarker: in (or, for an instruction of a helper, the helper's call - provided `in` lies on every path to the
+	// helper's success returns) dominates the marker creation
+	beforeMarker := func(in ssa.Instruction) bool {
+		if in.Parent() == m.merge {
+			return dominatesInstr(in, M)
+		}
+		site, ok := helperSite[in.Parent()]
+		if !ok || !dominatesInstr(site, M) {
+			return false
+		}
+		ei := core.ErrResultIndex(in.Parent().Signature)
+		for _, r := range core.Returns(in.Parent()) {
+			if ei >= 0 && !core.IsNilConst(core.ReturnOperand(r, ei)) {
+				continue
+			}
+			if !(in.Block() == r.Block() || in.Block().Dominates(r.Block())) {
+				return false
+			}
+		}
+		return true
+	}
+	for _, b := range closeBlocks {
 		for _, in := range b.Instrs {
 			recv, ok := isClose(in)
 			if !ok {
 				continue
 			}
 			// which file?
-			for _, o := range core.Origins(recv) {
+			for _, o := range bind(recv) {
 				switch t := o.(type) {
 				case *ssa.Extract:
 					if oc, ok := t.Tuple.(*ssa.Call); ok && oc.Common().StaticCallee() == m.openFile {
-						if s, _ := strConst(oc.Common().Args[2]); s == m.suffix("HintFileSuffix") && dominatesInstr(in, M) {
+						if s, _ := strConst(oc.Common().Args[2]); s == m.suffix("HintFileSuffix") && beforeMarker(in) {
 							hintClosed = true
 						}
 					}
 					if nx, ok := t.Tuple.(*ssa.Next); ok {
 						if rg, ok := nx.Iter.(*ssa.Range); ok {
-							if f, base := core.LoadedField(rg.X); f == R.DBOlder && isScratchDB(m.merge, base) && dominatesInstr(rg, M) {
+							if f, base := core.LoadedField(rg.X); f == R.DBOlder && isScratch(base) && beforeMarker(rg) {
 								olderClosed = true
 							}
 						}
 					}
 				case *ssa.UnOp:
-					if f, base := core.LoadedField(t); f == R.DBActive && isScratchDB(m.merge, base) {
-						if dominatesInstr(in, M) {
+					if f, base := core.LoadedField(t); f == R.DBActive && isScratch(base) {
+						if beforeMarker(in) {
 							activeClosed = true
-						} else if len(b.Preds) == 1 && b.Preds[0].Dominates(M.Block()) {
+						} else if len(b.Preds) == 1 && beforeMarker(b.Preds[0].Instrs[len(b.Preds[0].Instrs)-1]) {
 							// "if scratch.activeFile != nil { Close }": the guarded form
 							if iff, ok := b.Preds[0].Instrs[len(b.Preds[0].Instrs)-1].(*ssa.If); ok {
 								if bo, ok := iff.Cond.(*ssa.BinOp); ok && core.IsNilConst(bo.Y) {
